@@ -60,6 +60,29 @@ def tasks(tier, seed):
     return out
 
 
+HUGE = [s_ * v for s_ in (1, -1) for v in (
+    2**100, 2**128 + 1, 2**1000, 2**14000, 2**20000 - 1, 10**100, 10**4299,
+    10**4300, 10**4301, 10**5000, 10**10000)]
+
+
+def sn(n):
+    """An integer for messages / samples / JSON: itself, or a short
+    description when it is too long to print (str() of an int of more than
+    4300 digits raises ValueError in CPython >= 3.11)."""
+    if abs(n) < 2**80:
+        return n
+    return '%s(int of %d bits, %s...)' % ('-' if n < 0 else '',
+                                          n.bit_length(), hex(abs(n))[:12])
+
+
+def jn(n):
+    return n if abs(n) < 2**80 else {'$hex': hex(n)}
+
+
+def unjn(j):
+    return int(j['$hex'], 16) if isinstance(j, dict) else j
+
+
 def set_switch(legacy):
     lib.pamqp().encode.support_deprecated_rabbitmq(legacy)
 
@@ -172,9 +195,11 @@ def observe_int(ctx, legacy, n):
     ]
     for pos, func, arg, ref in positions:
         ctx.case((legacy, n, pos), not -128 <= n <= 127,
-                 sample=lambda: {'legacy': legacy, 'n': n, 'position': pos})
-        case = {'kind': 'int', 'legacy': legacy, 'n': n, 'position': pos}
-        fp = 'ladder|{}|{}|{}'.format(legacy, n, pos)
+                 sample=lambda: {'legacy': legacy, 'n': sn(n),
+                                 'position': pos})
+        case = {'kind': 'int', 'legacy': legacy, 'n': jn(n), 'position': pos}
+        fp = 'ladder|{}|{}|{}'.format(legacy, sn(n), pos)
+        n_ = sn(n)
         try:
             got = func(arg)
             ctx.calls()
@@ -183,7 +208,7 @@ def observe_int(ctx, legacy, n):
             if in_range:
                 ctx.outcome('refused-in-range')
                 ctx.violation(fp, 'legacy={} {}({}) refused an integer of '
-                              '[-2^63, 2^63-1]'.format(legacy, pos, n), case,
+                              '[-2^63, 2^63-1]'.format(legacy, pos, n_), case,
                               'encoded', 'TypeError')
             else:
                 ctx.outcome('refused-out-of-range')
@@ -193,7 +218,7 @@ def observe_int(ctx, legacy, n):
             ctx.calls()
             ctx.outcome('raised-' + type(exc).__name__)
             ctx.violation(fp, 'legacy={} {}({}) raised {} instead of {}'
-                          .format(legacy, pos, n, type(exc).__name__,
+                          .format(legacy, pos, n_, type(exc).__name__,
                                   'encoding' if in_range else 'TypeError'),
                           case, 'encoded' if in_range else 'TypeError',
                           repr(exc))
@@ -203,8 +228,8 @@ def observe_int(ctx, legacy, n):
         if not in_range:
             ctx.outcome('accepted-out-of-range')
             ctx.violation(fp, 'legacy={} {}({}) accepted an integer outside '
-                          '[-2^63, 2^63-1]: {}'.format(legacy, pos, n,
-                                                       got.hex()), case,
+                          '[-2^63, 2^63-1]: {}'.format(legacy, pos, n_,
+                                                       got.hex()[:80]), case,
                           'TypeError', got.hex())
             continue
         want = ref()
@@ -212,7 +237,7 @@ def observe_int(ctx, legacy, n):
             ctx.outcome('wrong-type')
             ctx.violation(fp, 'legacy={} {}({}) = {} but the ladder gives {} '
                           '(tag {!r} instead of {!r})'.format(
-                              legacy, pos, n, got.hex(), want.hex(),
+                              legacy, pos, n_, got.hex(), want.hex(),
                               got[:1], want[:1]), case, want.hex(),
                           got.hex())
             continue
@@ -225,7 +250,7 @@ def observe_int(ctx, legacy, n):
                 tags = {b'?'}
             if not tags <= {b'b', b's', b'I', b'l'}:
                 ctx.violation(fp, 'legacy output for {} contains tags {}'
-                              .format(n, sorted(tags)), case, 'b s I l',
+                              .format(n_, sorted(tags)), case, 'b s I l',
                               sorted(tags))
                 continue
         ctx.outcome('ok')
@@ -300,6 +325,7 @@ def ints_for(task, tier, seed):
     rnd = random.Random(seed)
     out += [rnd.randint(-2**63, 2**63 - 1) for _ in range(2000)]
     out += [rnd.randint(-2**70, 2**70) for _ in range(200)]
+    out += HUGE
     return out
 
 
@@ -422,18 +448,20 @@ def check_fixed(ctx):
         func = getattr(e, name)
         for n in sorted({lo - 2, lo - 1, lo, lo + 1, -1, 0, 1, hi - 1, hi,
                          hi + 1, hi + 2, 2 * hi + 1, 2 * hi + 2, -2**64,
-                         2**64}):
+                         2**64} | set(HUGE)):
             ctx.case(('fixed', name, n), True, sample={'encoder': name,
-                                                       'n': n})
-            case = {'kind': 'fixed', 'name': name, 'n': n}
-            fp = 'fixed|{}|{}'.format(name, n)
+                                                       'n': sn(n)})
+            case = {'kind': 'fixed', 'name': name, 'n': jn(n)}
+            fp = 'fixed|{}|{}'.format(name, sn(n))
+            n_ = n
+            n = sn(n)
             ctx.valid()
             try:
-                got = func(n)
+                got = func(n_)
                 ctx.calls()
             except TypeError:
                 ctx.calls()
-                if lo <= n <= hi:
+                if lo <= n_ <= hi:
                     ctx.violation(fp, '{}({}) refused an in-range value'
                                   .format(name, n), case, 'encoded',
                                   'TypeError')
@@ -445,7 +473,7 @@ def check_fixed(ctx):
                               .format(name, n, type(exc).__name__), case,
                               'TypeError', repr(exc))
                 continue
-            if not lo <= n <= hi:
+            if not lo <= n_ <= hi:
                 ctx.violation(fp, '{}({}) accepted an out-of-range value: {}'
                               .format(name, n, got.hex()), case, 'TypeError',
                               got.hex())
@@ -488,7 +516,7 @@ def replay(case, ctx):
     try:
         if case['kind'] == 'int':
             set_switch(case['legacy'])
-            observe_int(ctx, case['legacy'], case['n'])
+            observe_int(ctx, case['legacy'], unjn(case['n']))
             ctx.violations = [v for v in ctx.violations
                               if v['case'] == case] or ctx.violations
         elif case['kind'] == 'array':
